@@ -442,6 +442,11 @@ def create_window(N, name=None, **kargs):
         window_names.keys()
     ), """window name %s not implemented or incorrect. Try to use one of %s""" % (name, window_names)
 
+    # a numpy integer length keeps its own (possibly unsigned or 8-bit) type
+    # in expressions such as -N/2 used by the generators, which then wrap
+    if isinstance(N, np.integer):
+        N = int(N)
+
     # create the function name
     f = eval(window_names[name])
 
